@@ -52,7 +52,7 @@ def zeq_str(a, b):
     return z3.is_true(z3.simplify(a == b))
 
 
-def run(group="rel", shard=0, nshards=1, budget_s=60, known_labels=()):
+def run(group="rel", shard=0, nshards=1, budget_s=60, known_labels=(), only=None):
     import claripy
     import fnmatch
     ctx = z3.main_ctx()
@@ -62,6 +62,8 @@ def run(group="rel", shard=0, nshards=1, budget_s=60, known_labels=()):
     S1 = strings(1) + ["ab", "a.", "aa", "a-", "-5", " 5", "1_0", "05", "007", "\\u{48}", "\\u{0}z", "٣٣", "5\n", "+5", "123456789012345678901", "18446744073709551617"]
 
     def rec(label, detail, wit):
+        if only is not None and only not in label:
+            return          # this run reports one kind of failure only (C04: crashes)
         if any(label == p or fnmatch.fnmatch(label, p) for p in known_labels):
             kh[label] = kh.get(label, 0) + 1
         else:
